@@ -645,13 +645,17 @@ int main(void)
         } else if (!strcmp(c, "csdoup")) {  /* csdoup num idx sub size timeout */
             int n = (int)U(1); CO_CSDO *cs = COCSdoFind(Node, (uint8_t)n);
             if (!cs) printf("ret nocsdo\n");
-            else { uint32_t sz = U(4); CsBuf[n] = xalloc(sz ? sz : 1); CsLen[n] = sz; memset(CsBuf[n], 0xEE, sz ? sz : 1);
-                   printf("ret %d\n", (int)COCSdoRequestUpload(cs, CO_DEV(X(2), X(3)), CsBuf[n], sz, csdo_cb, U(5))); }
+            else { uint32_t sz = U(4); uint8_t *b = xalloc(sz ? sz : 1); memset(b, 0xEE, sz ? sz : 1);
+                   CO_ERR e = COCSdoRequestUpload(cs, CO_DEV(X(2), X(3)), b, sz, csdo_cb, U(5));
+                   if (e == CO_ERR_NONE) { CsBuf[n] = b; CsLen[n] = sz; }      /* a refused request leaves the running transfer's buffer alone */
+                   printf("ret %d\n", (int)e); }
         } else if (!strcmp(c, "csdodown")) { /* csdodown num idx sub hex timeout */
             int n = (int)U(1); CO_CSDO *cs = COCSdoFind(Node, (uint8_t)n);
             if (!cs) printf("ret nocsdo\n");
-            else { size_t sz = unhex(ARG(4), tmp, sizeof tmp); CsBuf[n] = xalloc(sz ? sz : 1); CsLen[n] = (uint32_t)sz; memcpy(CsBuf[n], tmp, sz);
-                   printf("ret %d\n", (int)COCSdoRequestDownload(cs, CO_DEV(X(2), X(3)), CsBuf[n], (uint32_t)sz, csdo_cb, U(5))); }
+            else { size_t sz = unhex(ARG(4), tmp, sizeof tmp); uint8_t *b = xalloc(sz ? sz : 1); memcpy(b, tmp, sz);
+                   CO_ERR e = COCSdoRequestDownload(cs, CO_DEV(X(2), X(3)), b, (uint32_t)sz, csdo_cb, U(5));
+                   if (e == CO_ERR_NONE) { CsBuf[n] = b; CsLen[n] = (uint32_t)sz; }
+                   printf("ret %d\n", (int)e); }
         } else if (!strcmp(c, "csdobuf")) { int n = (int)U(1); printf("ret "); hex(CsBuf[n], CsLen[n]); printf("\n");
         } else if (!strcmp(c, "fault")) {   /* fault what k [short] */
             const char *w = ARG(1); int k = (int)U(2);
